@@ -8,14 +8,17 @@ namespace T4V
 
 def natLe (a b : Nat) : Bool := decide (a ≤ b)
 
-/-- `VolumeT4.__str__` -/
-def volLine (pluses minuses : List Nat) (ops : Option (String × List Nat)) (fictive : Bool) : String :=
-  let ws : List String := ["EQUA"]
+/-- the words of `VolumeT4.__str__` -/
+def volWords (pluses minuses : List Nat) (ops : Option (String × List Nat)) (fictive : Bool) : List String :=
+  ["EQUA"]
     ++ (if pluses.isEmpty then [] else ["PLUS", toString pluses.length] ++ (pluses.mergeSort natLe).map toString)
     ++ (if minuses.isEmpty then [] else ["MINUS", toString minuses.length] ++ (minuses.mergeSort natLe).map toString)
     ++ (match ops with | some (op, ids) => [op, toString ids.length] ++ ids.map toString | none => [])
     ++ (if fictive then ["FICTIVE"] else [])
-  " ".intercalate ws
+
+/-- `VolumeT4.__str__` -/
+def volLine (pluses minuses : List Nat) (ops : Option (String × List Nat)) (fictive : Bool) : String :=
+  " ".intercalate (volWords pluses minuses ops fictive)
 
 /-- the order in which `writeT4Geometry` writes the surfaces in use: `sorted(surf_used)` -/
 def surfOrder (used : List Nat) : List Nat := used.mergeSort natLe
